@@ -118,7 +118,7 @@ def run_entry(case, serial=False):
     if e == "taste":
         from amr_kitchen.taste import Taster
         return digest([bool(Taster("src", nofail=True, verbose=0, boxes_coordinates=True)),
-                       bool(Taster("damaged", nofail=True, verbose=0))])
+                       bool(Taster("damaged", nofail=True, verbose=0)), bool(Taster("src", nofail=True, verbose=0, binary_data=True))])
     if e == "colander":
         from amr_kitchen.colander import Colander
         Colander("src", output="out", variables=["Y(H2)", "temp"]).strain()
@@ -270,29 +270,41 @@ class real_pools:
 
 # --------------------------------------------------------------------------- the check
 
-def check_case(case, ctx):
+def prepare(case, variant):
+    """Writes the inputs of the entry point into the current directory (variant != 0: same mesh, other values)."""
     from .. import corrupt
-    ctx.fresh()
     e = case["entry"]
-    plot = plotgen.Plot(case["spec"])
+    spec = dict(case["spec"])
+    if variant:
+        spec["payload"] = dict(spec["payload"], seed=int(spec["payload"].get("seed", 0)) + 7919 * variant)
+    plot = plotgen.Plot(spec)
     plotgen.write(plot, "src")
     if e == "combine":
-        s2 = dict(case["spec"], fields=["phi", "banana"])
+        s2 = dict(spec, fields=["phi", "banana"])
         if case["delay_seed"] % 2:           # same files and order (file-by-file mode) or an independent layout (box-by-box mode)
             s2["layout_override"] = case["layout2"]
         plotgen.write(plotgen.Plot(s2), "src2")
     if e == "taste":
         shutil.copytree("src", "damaged")
-        corrupt.apply("damaged", dict(kind="fab_shift", lv=plot.nlev - 1, box=len(plot.levels[-1]["boxes"]) - 1, amt=8, dim=0, side=0))
+        # in the second directory the roles are swapped: "src" is the damaged one, "damaged" is intact
+        corrupt.apply("src" if variant else "damaged",
+                      dict(kind="fab_shift", lv=plot.nlev - 1, box=len(plot.levels[-1]["boxes"]) - 1, amt=8, dim=0, side=0))
     if e == "chef":
         with open("recipe_c12.py", "w") as f:
             f.write(RECIPE)
     if e == "chk2plt":
-        chkgen.write(chkgen.Checkpoint(case["chk"]), "chk")
+        chkgen.write(chkgen.Checkpoint(dict(case["chk"], seed=case["chk"]["seed"] + variant)), "chk")
     if e.startswith("mand3d"):
         cn = case["normal"]
         n = plot.grid_size(0)[cn]
         case = dict(case, _pos=plot.geo_lo[cn] + (n // 2 - 0.5 + case["frac"]) * plot.dx[0][cn])
+    return case
+
+
+def check_case(case, ctx):
+    ctx.fresh()
+    e = case["entry"]
+    case = prepare(case, 0)
     ctx.label("entry:" + e)
     what = f"(entry {e})"
     # reference: identity schedule
@@ -352,21 +364,74 @@ def check_case(case, ctx):
     m = run_with(case["sched"], f"the drawn joint schedule {case['sched']}")
     if m:
         return v + [m]
-    # (iii) real pools
+    # (iii) real pools, in a fresh interpreter whose very first pool is a real one (so that workers or pools the code
+    #       keeps alive between calls are real processes too), then the same relative names in another directory
     if case["real"]:
         ctx.label(f"real-pools:{case['workers']}workers")
-        with real_pools(case["workers"], case["delay_seed"]):
-            for rep in range(2 if e in ("chef", "chef_ct") else 1):
-                try:
-                    got = qcall(run_entry, case)
-                except Exception as ex:
-                    v.append(f"raised {type(ex).__name__}: {str(ex)[:200]} with real pools ({case['workers']} workers, run {rep + 1}) {what}")
-                    break
-                ctx.counters["schedules"] += 1
-                if got != ref:
-                    v.append(f"result with real pools ({case['workers']} workers, delays seed {case['delay_seed']}, run {rep + 1} "
-                             f"in this process) differs from the identity-schedule result {what}")
-                    break
-        import gc
-        gc.collect()
+        here = os.getcwd()
+        os.makedirs("elsewhere")
+        os.chdir("elsewhere")
+        try:
+            case2 = prepare(case, 1)
+            pools.set_schedule(None)
+            ref2 = qcall(run_entry, case2)
+        except Exception as ex:
+            os.chdir(here)
+            return v + [f"{e} raised {type(ex).__name__}: {str(ex)[:200]} on a second input"]
+        os.chdir(here)
+        import json
+        import subprocess
+        with open("real_case.json", "w") as fh:
+            json.dump(dict(case=case, case2=case2, dir_a=here, dir_b=os.path.join(here, "elsewhere"), workers=case["workers"],
+                           delay_seed=case["delay_seed"], reps=2 if e in ("chef", "chef_ct") else 1), fh)
+        env = dict(os.environ, PYTHONPATH=os.path.dirname(os.path.dirname(os.path.dirname(os.path.abspath(__file__)))))
+        try:
+            pr = subprocess.run([sys.executable, "-m", "akv.props.c12", "real_case.json"], capture_output=True, text=True, env=env, timeout=150)
+        except subprocess.TimeoutExpired:
+            # a time budget hit is inconclusive, never a violation (and not a reason to distrust the other tiers)
+            ctx.label("real-pool child timed out (inconclusive)")
+            return v
+        ctx.counters["schedules"] += 3
+        try:
+            out = json.loads(pr.stdout.strip().split("\n")[-1])
+        except Exception:
+            from ..harness import HarnessError
+            raise HarnessError(f"real-pool child failed: {pr.stdout[-300:]} {pr.stderr[-600:]}")
+        for k, (got, want, desc) in enumerate(zip(out["a"], [ref] * len(out["a"]), [f"run {i + 1}" for i in range(len(out["a"]))])):
+            if got != want:
+                v.append(f"result with real pools ({case['workers']} workers, delays seed {case['delay_seed']}, {desc} in one process) "
+                         f"differs from the identity-schedule result{': ' + got if got.startswith('raised') else ''} {what}")
+                break
+        if not v and out["b"] != ref2:
+            v.append(f"after a chdir to a directory holding other data under the same relative names, the result with real pools "
+                     f"({case['workers']} workers) is not that directory's result{': ' + out['b'] if out['b'].startswith('raised') else ''} {what}")
     return v
+
+
+def _child_main(path):
+    """Entry of the real-pool child process: real multiprocessing / pathos pools from the first call on."""
+    import json
+    from .. import harness
+    harness.setup_repo(patch_pools=False)
+    with open(path) as fh:
+        job = json.load(fh)
+    out = dict(a=[], b=None)
+    with real_pools(job["workers"], job["delay_seed"]):
+        os.chdir(job["dir_a"])
+        for rep in range(job["reps"]):
+            try:
+                out["a"].append(qcall(run_entry, job["case"]))
+            except Exception as ex:
+                out["a"].append(f"raised {type(ex).__name__}: {str(ex)[:200]}")
+        os.chdir(job["dir_b"])
+        try:
+            out["b"] = qcall(run_entry, job["case2"])
+        except Exception as ex:
+            out["b"] = f"raised {type(ex).__name__}: {str(ex)[:200]}"
+    print(json.dumps(out))
+    sys.stdout.flush()
+    os._exit(0)
+
+
+if __name__ == "__main__":
+    _child_main(sys.argv[1])
